@@ -182,6 +182,8 @@ def run(ctx):
                 continue
             if c.name.endswith("as std::ops::Try>::branch") or "FromResidual" in c.name:
                 continue
+            if row.get("callee") and not re.search(row["callee"], c.name):
+                continue
             if not any(re.search(row["datum"], pr.operand(a)) for a in t["args"]):
                 continue
             if v.disp(bb)["kind"] not in ("try", "returned", "matched"):
